@@ -618,7 +618,7 @@ class DB:
             return [lookup_hashX(*prevout) for prevout in prevouts]
 
         def lookup_utxos(hashX_pairs):
-            def lookup_utxo(hashX, suffix):
+            def lookup_utxo(tx_hash, hashX, suffix):
                 if not hashX:
                     # This can happen when the daemon is a block ahead
                     # of us and has mempool txs spending outputs from
@@ -632,9 +632,17 @@ class DB:
                     # This can happen if the DB was updated between
                     # getting the hashXs and getting the UTXOs
                     return None
+                # If that update was a reorg the tx number may have been reused, and the
+                # row then belongs to an output of another transaction: the tx number
+                # must still be that of TX_HASH
+                tx_num, = unpack_le_uint64(suffix[-5:] + bytes(3))
+                fs_hash, _height = self.fs_tx_hash(tx_num)
+                if fs_hash != tx_hash:
+                    return None
                 value, = unpack_le_uint64(db_value)
                 return hashX, value
-            return [lookup_utxo(*hashX_pair) for hashX_pair in hashX_pairs]
+            return [lookup_utxo(tx_hash, *hashX_pair)
+                    for (tx_hash, _tx_idx), hashX_pair in zip(prevouts, hashX_pairs)]
 
         hashX_pairs = await run_in_thread(lookup_hashXs)
         return await run_in_thread(lookup_utxos, hashX_pairs)
